@@ -322,6 +322,18 @@ func runReceiver(kind string, m *message.Message) (res adResult) {
 			if err == nil {
 				res.ad = canonAd(ad)
 				res.reply = showAdMap(res.ad)
+				// The application owns the ad it received and may change it. What it does to THIS ad
+				// must not show in any ad decoded later (the same texts are decoded again and again
+				// below, through other framings and receivers): extend every list in place.
+				if a := ad.AST(); a != nil {
+					if el, perr := classad.ParseExpr("\"mutated-by-the-receiver\""); perr == nil {
+						for _, at := range a.Attributes {
+							if _, isList := at.Value.(*ast.ListLiteral); isList {
+								ad.InsertListElement(at.Name, el)
+							}
+						}
+					}
+				}
 			}
 		case "getraw":
 			var t string
